@@ -1,3 +1,4 @@
 pub mod c03;
 pub mod c07;
 pub mod c12;
+pub mod c15;
